@@ -30,6 +30,13 @@ pub fn main(args: &[String]) -> i32 {
             "--threads" => { threads = args[i + 1].parse().unwrap(); i += 2; }
             "--resize" => { resize = true; i += 1; }
             "--fault" => { config.faults.push(args[i + 1].parse().unwrap()); i += 2; }
+            "--partial" => {
+                let mut it = args[i + 1].split(',');
+                let k: usize = it.next().unwrap().parse().unwrap();
+                let j: usize = it.next().unwrap_or("0").parse().unwrap();
+                config.partial = Some((k, j));
+                i += 2;
+            }
             "--sched" => { sched_seed = Some(args[i + 1].parse().unwrap()); i += 2; }
             "--crash" => {
                 let mut it = args[i + 1].split(',');
